@@ -106,6 +106,67 @@ def request_bytes(rng, kind: str) -> bytes:
 REQ_KINDS = ["plain", "head", "body", "chunked", "expect", "close", "http10", "connect", "upgrade_other", "ws", "ws", "ws_bad", "ws_expect",
              "h2c", "prior", "bad_name", "garbage"]
 
+# --- bytes 0x80-0xff (obs-text: h11 accepts them in field values) in the VALUES of the headers hypercorn interprets itself ---------
+INTERPRETED = [b"Connection", b"Upgrade", b"Host", b"Expect", b"Content-Length", b"Transfer-Encoding", b"HTTP2-Settings",
+               b"Sec-WebSocket-Key", b"Sec-WebSocket-Version", b"Sec-WebSocket-Protocol", b"Sec-WebSocket-Extensions"]
+# latin-1 whitespace (NEL, NBSP), letters with and without a case partner, the two ends of the range, a UTF-8 pair
+OBS_BYTES = [b"\x80", b"\x85", b"\xa0", b"\xb5", b"\xc9", b"\xdf", b"\xe9", b"\xff", b"\xc3\xa9"]
+OBS_HOWS = ["replace", "prefix", "suffix", "token", "whole", "second_header"]
+
+
+def obs_text(head: bytes, name: bytes, how: str, ob: bytes) -> bytes:
+    """`head` (a request head ending in CRLF CRLF, possibly followed by a body) with a non-ASCII byte put into the value of header
+    `name` (added when the request does not carry it): one character replaced / value prefixed / suffixed / an extra comma token /
+    the whole value / a second header line of that name"""
+    end = head.find(b"\r\n\r\n")
+    if end < 0:
+        return head
+    lines = head[:end].split(b"\r\n")
+    rest = head[end:]
+    idx = next((i for i, l in enumerate(lines[1:], 1) if l.split(b":", 1)[0].strip().lower() == name.lower()), None)
+    if idx is None:
+        lines.append(name + b": " + ob + (b"x" if how in ("prefix", "token") else b""))
+        return b"\r\n".join(lines) + rest
+    n, v = lines[idx].split(b":", 1)
+    v = v.strip()
+    if how == "replace" and len(v) > 1:
+        v = v[:1] + ob + v[2:]
+    elif how == "prefix":
+        v = ob + v
+    elif how == "suffix":
+        v = v + ob
+    elif how == "token":
+        v = v + b", " + ob
+    elif how == "second_header":
+        lines.insert(idx + 1, n + b": " + ob)
+    else:
+        v = ob
+    lines[idx] = n + b": " + v
+    return b"\r\n".join(lines) + rest
+
+
+def obs_corpus() -> List[dict]:
+    """deterministic: every interpreted header x (plain request, WebSocket handshake, h2c upgrade, request with a body) x placement;
+    a good request follows on the same connection where it can"""
+    import random
+    rng = random.Random(7)
+    out: List[dict] = []
+    k = 0
+    for base in ("plain", "ws", "h2c", "body", "chunked", "expect", "close"):
+        for name in INTERPRETED:
+            for how in OBS_HOWS:
+                k += 1
+                if base in ("h2c", "body", "chunked", "expect", "close") and k % 3:
+                    continue         # the two main bases carry the full grid, the others a third of it
+                ob = OBS_BYTES[k % len(OBS_BYTES)]
+                data = obs_text(request_bytes(rng, base), name, how, ob)
+                steps = [{"data": b2s(data)}, {"send": [0, 0]}, {"send": [0, 8]}, {"data": b2s(request_bytes(rng, "plain"))}, {"send": [1, 0]},
+                         {"send": [1, 8]}, {"data": ""}]
+                out.append({"family": "h1direct", "kinds": [base + "+obs:" + name.decode().lower()], "split": "one", "steps": steps, "ws_max": 16777216,
+                            "keep_alive_max": 1000, "server_names": ["x"] if name == b"Host" and k % 2 else [], "raw_headers": k % 5 == 0,
+                            "ping": False, "seed": k, "obs": [[name.decode(), how, b2s(ob)]]})
+    return out
+
 
 def ws_frames(rng, n: int) -> bytes:
     """client frames: text / binary, fragmented or not, control frames in between, closes, some garbage"""
@@ -149,8 +210,14 @@ def gen_case(rng, idx: int) -> dict:
     kinds = [rng.choice(REQ_KINDS) for _ in range(rng.choice([1, 1, 2, 2, 3]))]
     ws_max = rng.choice([16777216, 16777216, 100, 1])
     data = b""
+    obs = []
     for k in kinds:
-        data += request_bytes(rng, k)
+        req = request_bytes(rng, k)
+        if k not in ("prior", "garbage") and rng.random() < 0.2:
+            o = (rng.choice(INTERPRETED), rng.choice(OBS_HOWS), rng.choice(OBS_BYTES))
+            req = obs_text(req, *o)
+            obs.append([o[0].decode(), o[1], b2s(o[2])])
+        data += req
         if k in ("ws", "ws_expect", "ws_bad") and rng.random() < 0.8:
             # with a small message limit: several messages of both kinds, so that something follows the one that went over it
             data += ws_frames(rng, rng.choice([1, 2, 4]) if ws_max > 100 else rng.choice([3, 5, 8]))
@@ -158,7 +225,7 @@ def gen_case(rng, idx: int) -> dict:
     steps: List[dict] = []
     if kinds[0] in ("ws", "ws_expect") and rng.random() < 0.6:
         # an accepted WebSocket: the handshake alone, the application's accept (message 0 of the pool), then everything else
-        head = request_bytes(rng, kinds[0])
+        head = data[:data.find(b"\r\n\r\n") + 4] if obs else request_bytes(rng, kinds[0])
         rest = data[len(head):] if data.startswith(head) else ws_frames(rng, 4)
         steps += [{"data": b2s(head)}, {"send": [0, 0]}]
         data = rest if rest else ws_frames(rng, 3)
@@ -191,7 +258,7 @@ def gen_case(rng, idx: int) -> dict:
         steps.append({"deferred": 1})
     return {"family": "h1direct", "kinds": kinds, "split": split, "steps": steps, "ws_max": ws_max,
             "keep_alive_max": rng.choice([1, 2, 1000]), "server_names": rng.choice([[], [], ["x"]]), "raw_headers": rng.random() < 0.3,
-            "ping": rng.random() < 0.2, "seed": rng.randrange(1 << 30)}
+            "ping": rng.random() < 0.2, "seed": rng.randrange(1 << 30), "obs": obs}
 
 
 def _jsonable_msg(m: Optional[dict]) -> Any:
@@ -260,6 +327,15 @@ def check(ctx: Ctx, cases: List[dict]) -> None:
         ctx.evaluations += 1
         for k in case["kinds"]:
             ctx.count("h1direct.request", k)
+        for o in case.get("obs") or []:
+            ctx.count("h1direct.obs_text", f"{o[0].lower()}:{o[1]}")
+        # trusted library fact behind `fieldAscii` (h1_decode_sites_total): request-line fields and header names are ASCII
+        for mo in mops:
+            if mo.get("k") == "request":
+                fields = [mo["method"], mo["target"], mo.get("version", "")] + [h[0] for h in mo["headers"]]
+                if any(ord(c) > 127 for f in fields for c in f):
+                    ctx.disagree("c04.h1total(LibWf: h11 handed over a non-ASCII method / target / version / header name)",
+                                 {"family": "h1direct", "seed": case["seed"], "case": case}, None, {"request": mo})
         req = H.h11_model_req(cfg, mops, lib, HS.SERVER_HEADERS)
         reqs += [{**req, "cmd": "c04.h1total"}, req]
         runs.append((case, mops, obs))
